@@ -204,6 +204,8 @@ func (d *c02Drv) handle(w http.ResponseWriter, r *http.Request) {
 			switch {
 			case sc.term == "panic":
 				panic("verif C02: scripted handler panic")
+			case strings.HasPrefix(sc.term, "panic_"):
+				c02PanicWith(strings.TrimPrefix(sc.term, "panic_"))
 			case strings.HasPrefix(sc.term, "bad"):
 				// WriteHeader with a status code outside 100..599: panics inside WriteHeader
 				code, _ := strconv.Atoi(strings.TrimPrefix(sc.term, "bad"))
@@ -232,6 +234,28 @@ func (d *c02Drv) handle(w http.ResponseWriter, r *http.Request) {
 			run(i)
 		}
 	}
+}
+
+type c02Custom struct{ n int }
+
+// c02PanicWith panics with the kind of value the script names; no prediction depends on it.
+func c02PanicWith(kind string) {
+	switch kind {
+	case "error":
+		panic(fmt.Errorf("verif C02: scripted handler panic (error value)"))
+	case "nilmap":
+		var m map[string]int
+		m["x"] = 1 // runtime error: assignment to entry in nil map
+	case "index":
+		var s []int
+		i := len(s) + 3
+		_ = s[i] // runtime error: index out of range
+	case "abort":
+		panic(http.ErrAbortHandler)
+	case "custom":
+		panic(c02Custom{n: 2})
+	}
+	panic("verif C02: unknown panic kind " + kind)
 }
 
 // ---------------------------------------------------------------- servers
@@ -422,7 +446,7 @@ func (d *c02Drv) do(transport string, env *c02Env, path string, sc *c02Scenario,
 		case escaped := <-served:
 			hang.Stop()
 			if escaped != nil {
-				return c02Obs{err: fmt.Sprintf("panic escaped the chain: %v", escaped)}
+				return c02Obs{err: fmt.Sprintf("ESCAPED a panic escaped ServeHTTP of the whole chain: %v", escaped)}
 			}
 		case <-hang.C:
 			return c02Obs{err: "HUNG no response within " + c02Hang.String() + c02Dump()}
@@ -500,6 +524,9 @@ func c02Eq(a, b []string) bool {
 func c02Match(exp kit.M, o c02Obs) (ok bool, why string) {
 	if strings.HasPrefix(o.err, "HUNG") {
 		return false, "hung"
+	}
+	if strings.HasPrefix(o.err, "ESCAPED") {
+		return false, "panic-escaped"
 	}
 	if o.err != "" {
 		return false, "no-response"
@@ -729,6 +756,9 @@ func (d *c02Drv) runScript(c kit.Case, m kit.M) kit.Verdict {
 			}
 			v.OK = false
 			v.Key = "C02:rest:" + tr + ":" + class + ":" + why
+			if why == "panic-escaped" {
+				v.Key = "C02:rest:panic-escaped" // recorder path: nothing above the chain recovers
+			}
 			v.Msg = fmt.Sprintf("transport %s, %s scenario cl=%d script=%s term=%s npre=%d cause=%s delay=%v: client saw %s, specification allows %s",
 				tr, class, cl, kit.Canon(m["steps"]), kit.Str(m["term"]), npre, kit.Str(m["cause"]), delay, o, c02Want(exp))
 			return v
